@@ -86,31 +86,24 @@ harnesses! { REG_C03X, "C03", "extra";
         ob!("B5.luma_u16_clamp_assign_eq_clamp", la == lu.clamp() && la == lu);
     }
 
-    { id: "from_color.boxed_slice_and_vec_clamp", tier: quick, label: "bounded(len<=2)",
+    { id: "from_color.boxed_slice_and_vec_clamp", tier: quick, label: "bounded(len 2)",
       func: "impl FromColor<Box<[T]>> for Box<[U]>, impl FromColor<Vec<T>> for Vec<U> [convert/from_into_color.rs]; the unclamped siblings [convert/from_into_color_unclamped.rs]",
-      desc: "contract-level colour types (non-trivial clamp), all element values, lengths 0..=2: the clamping conversion of a boxed slice / vector equals, element for element, the unclamped conversion followed by clamp; the unclamped conversion does not clamp" }
+      desc: "contract-level colour types (non-trivial clamp), all element values, two elements: the clamping conversion of a boxed slice / vector equals, element for element, the unclamped conversion followed by clamp; the unclamped conversion does not clamp" }
     #[kani::unwind(4)]
     fn boxed_vec_from_color(g) {
-        let n = g.usize();
-        g.assume(n <= 2);
         let a0 = A { x: g.u32(), y: g.u32(), z: g.u32() };
         let a1 = A { x: g.u32(), y: g.u32(), z: g.u32() };
-        cov!(g, n == 2 && a0.x > 5000);
-        let src: Vec<A> = if n == 0 { vec![] } else if n == 1 { vec![a0] } else { vec![a0, a1] };
-        let vb: Vec<B> = Vec::<B>::from_color(src.clone());
-        let bb: Box<[B]> = Box::<[B]>::from_color(src.clone().into_boxed_slice());
-        let vu: Vec<B> = Vec::<B>::from_color_unclamped(src.clone());
-        let bu: Box<[B]> = Box::<[B]>::from_color_unclamped(src.clone().into_boxed_slice());
-        ob!("C1.lengths", vb.len() == n && bb.len() == n && vu.len() == n && bu.len() == n);
-        let mut i = 0;
-        while i < n {
-            let want = B::from_color_unclamped(src[i]).clamp();
-            ob!("C1.vec_from_color_is_unclamped_then_clamp", vb[i] == want);
-            ob!("C1.boxed_slice_from_color_is_unclamped_then_clamp", bb[i] == want);
-            ob!("C1.vec_unclamped_does_not_clamp", vu[i] == B::from_color_unclamped(src[i]));
-            ob!("C1.boxed_slice_unclamped_does_not_clamp", bu[i] == B::from_color_unclamped(src[i]));
-            i += 1;
-        }
+        cov!(g, a0.x > 5000 && a1.x < 10);
+        let want0 = B::from_color_unclamped(a0).clamp();
+        let want1 = B::from_color_unclamped(a1).clamp();
+        let vb: Vec<B> = Vec::<B>::from_color(vec![a0, a1]);
+        ob!("C1.vec_from_color_is_unclamped_then_clamp", vb.len() == 2 && vb[0] == want0 && vb[1] == want1);
+        let bb: Box<[B]> = Box::<[B]>::from_color(vec![a0, a1].into_boxed_slice());
+        ob!("C1.boxed_slice_from_color_is_unclamped_then_clamp", bb.len() == 2 && bb[0] == want0 && bb[1] == want1);
+        let vu: Vec<B> = Vec::<B>::from_color_unclamped(vec![a0, a1]);
+        ob!("C1.vec_unclamped_does_not_clamp", vu.len() == 2 && vu[0] == B::from_color_unclamped(a0) && vu[1] == B::from_color_unclamped(a1));
+        let bu: Box<[B]> = Box::<[B]>::from_color_unclamped(vec![a0, a1].into_boxed_slice());
+        ob!("C1.boxed_slice_unclamped_does_not_clamp", bu.len() == 2 && bu[0] == B::from_color_unclamped(a0) && bu[1] == B::from_color_unclamped(a1));
     }
 }
 
@@ -166,6 +159,83 @@ harnesses! { REG_C04X, "C04", "extra";
         let mut marr = arr;
         { let mc: &mut palette::Srgb<u8> = (&mut marr).into(); mc.blue = v; }
         ob!("L4.write_through_mut_colour", marr[2] == v && marr[0] == arr[0]);
+    }
+
+    { id: "traits.slice_array_component_uint_forms", tier: quick, label: "bounded(len<=2 colours)",
+      func: "AsArrays / AsArraysMut / ArraysAs / ArraysAsMut, AsComponents / AsComponentsMut / ComponentsAs / TryComponentsAs, AsUints / UintsAs, FromArrays / IntoArrays / ArraysFrom / ArraysInto, FromComponents / IntoComponents / TryFromComponents / ComponentsInto, FromUints / IntoUints / UintsFrom / UintsInto for slices, arrays, Box<[T]> and Vec<T> [cast/as_*_traits.rs, cast/from_into_*_traits.rs]",
+      desc: "every trait form views the same memory as the argument (same address; Vec: same capacity scaled exactly), with length scaled exactly by the component count, components in field order, and round-trips; the Try forms reject exactly the non-multiples" }
+    #[kani::unwind(20)]
+    fn cast_trait_forms(g) {
+        use palette::cast::{ArraysAs, ArraysAsMut, ArraysFrom, ArraysInto, AsArrays, AsArraysMut, AsComponents, AsComponentsMut, AsUints, ComponentsAs, ComponentsInto,
+            FromArrays, FromComponents, FromUints, IntoArrays, IntoComponents, IntoUints, TryComponentsAs, TryFromComponents, UintsAs, UintsFrom, UintsInto};
+        use palette::rgb::channels::Rgba;
+        use palette::cast::Packed;
+        let c = [palette::Srgb::new(g.u8(), g.u8(), g.u8()), palette::Srgb::new(g.u8(), g.u8(), g.u8())];
+        cov!(g, c[0].red != c[1].red);
+        let base = c.as_ptr() as usize;
+        // borrowed forms on slices
+        let arrs: &[[u8; 3]] = c[..].as_arrays();
+        ob!("T1.as_arrays", arrs.as_ptr() as usize == base && arrs.len() == 2 && arrs[1] == [c[1].red, c[1].green, c[1].blue]);
+        let comps: &[u8] = c[..].as_components();
+        ob!("T1.as_components", comps.as_ptr() as usize == base && comps.len() == 6 && comps[0] == c[0].red && comps[5] == c[1].blue);
+        let back: &[palette::Srgb<u8>] = arrs.arrays_as();
+        ob!("T1.arrays_as", back.as_ptr() as usize == base && back.len() == 2 && back[0] == c[0]);
+        let back: &[palette::Srgb<u8>] = comps.components_as();
+        ob!("T1.components_as", back.as_ptr() as usize == base && back.len() == 2 && back[1] == c[1]);
+        let tr: Result<&[palette::Srgb<u8>], _> = comps[..5].try_components_as();
+        ob!("T2.try_components_as_rejects_non_multiple", tr.is_err());
+        let tr: Result<&[palette::Srgb<u8>], _> = comps[..3].try_components_as();
+        ob!("T2.try_components_as_accepts_multiple", tr.map(|s| s.len() == 1 && s.as_ptr() as usize == base).unwrap_or(false));
+        // arrays (by value and by reference)
+        let a2: [[u8; 3]; 2] = c.into_arrays();
+        ob!("T3.into_arrays_array", a2[0] == [c[0].red, c[0].green, c[0].blue] && a2[1][2] == c[1].blue);
+        let c2: [palette::Srgb<u8>; 2] = <[palette::Srgb<u8>; 2]>::from_arrays(a2);
+        ob!("T3.from_arrays_array", c2 == c);
+        let c3: [palette::Srgb<u8>; 2] = a2.arrays_into();
+        let a3: [[u8; 3]; 2] = <[[u8; 3]; 2]>::arrays_from(c);
+        ob!("T3.arrays_into_and_from", c3 == c && a3 == a2);
+        let k6: [u8; 6] = c.into_components();
+        let c4: [palette::Srgb<u8>; 2] = <[palette::Srgb<u8>; 2]>::from_components(k6);
+        let c5: [palette::Srgb<u8>; 2] = k6.components_into();
+        ob!("T3.components_array_round_trip", k6[4] == c[1].green && c4 == c && c5 == c);
+        // mutable forms
+        let mut m = c;
+        let mbase = m.as_ptr() as usize;
+        { let ma: &mut [[u8; 3]] = m[..].as_arrays_mut(); ob!("T4.as_arrays_mut_same_memory", ma.as_ptr() as usize == mbase && ma.len() == 2); ma[1][0] = 7; }
+        ob!("T4.write_through_as_arrays_mut", m[1].red == 7 && m[0] == c[0]);
+        { let mc: &mut [u8] = m[..].as_components_mut(); ob!("T4.as_components_mut_same_memory", mc.as_ptr() as usize == mbase && mc.len() == 6); mc[2] = 9; }
+        ob!("T4.write_through_as_components_mut", m[0].blue == 9);
+        let mut ma2 = a2;
+        { let mc: &mut [palette::Srgb<u8>] = ma2[..].arrays_as_mut(); mc[0].green = 11; }
+        ob!("T4.write_through_arrays_as_mut", ma2[0][1] == 11);
+        // owned buffers: Vec and Box keep their allocation
+        let mut v: Vec<palette::Srgb<u8>> = Vec::with_capacity(3);
+        v.push(c[0]); v.push(c[1]);
+        let (vp, vc) = (v.as_ptr() as usize, v.capacity());
+        let va: Vec<[u8; 3]> = v.into_arrays();
+        ob!("T5.vec_into_arrays", va.as_ptr() as usize == vp && va.len() == 2 && va.capacity() == vc && va[1] == a2[1]);
+        let vk: Vec<u8> = Vec::<palette::Srgb<u8>>::from_arrays(va).into_components();
+        ob!("T5.vec_into_components", vk.as_ptr() as usize == vp && vk.len() == 6 && vk.capacity() == vc * 3 && vk[3] == c[1].red);
+        let tv: Result<Vec<palette::Srgb<u8>>, _> = Vec::<palette::Srgb<u8>>::try_from_components(vk);
+        ob!("T5.vec_try_from_components", tv.map(|w| w.as_ptr() as usize == vp && w.len() == 2 && w.capacity() == vc && w[0] == c[0]).unwrap_or(false));
+        let b: Box<[palette::Srgb<u8>]> = vec![c[0], c[1]].into_boxed_slice();
+        let bp = b.as_ptr() as usize;
+        let bk: Box<[u8]> = b.into_components();
+        ob!("T5.box_into_components", bk.as_ptr() as usize == bp && bk.len() == 6 && bk[5] == c[1].blue);
+        let bc: Box<[palette::Srgb<u8>]> = bk.components_into();
+        ob!("T5.box_components_into", bc.as_ptr() as usize == bp && bc.len() == 2 && bc[1] == c[1]);
+        // unsigned integer forms (Packed)
+        let p = [Packed::<Rgba, u32>::from(g.u32()), Packed::<Rgba, u32>::from(g.u32())];
+        let pb = p.as_ptr() as usize;
+        let us: &[u32] = p[..].as_uints();
+        ob!("T6.as_uints", us.as_ptr() as usize == pb && us.len() == 2 && us[1] == p[1].color);
+        let pk: &[Packed<Rgba, u32>] = us.uints_as();
+        ob!("T6.uints_as", pk.as_ptr() as usize == pb && pk.len() == 2 && pk[0].color == p[0].color);
+        let ua: [u32; 2] = p.into_uints();
+        let pa: [Packed<Rgba, u32>; 2] = <[Packed<Rgba, u32>; 2]>::from_uints(ua);
+        let pa2: [Packed<Rgba, u32>; 2] = ua.uints_into();
+        let ua2: [u32; 2] = <[u32; 2]>::uints_from(p);
+        ob!("T6.uint_array_round_trip", ua == [p[0].color, p[1].color] && pa[1].color == p[1].color && pa2[0].color == p[0].color && ua2 == ua);
     }
 
     { id: "value.casting_trait_impls_hue_f32", tier: quick, label: "complete",
